@@ -65,8 +65,8 @@ class ActionContext(abc.ABC):
 
     def __exit__(self, exception_type, exception_value, exception_traceback):
         """Exit and close the context."""
-        if self.has_triggered():
-            self.location_action.record_triggered(self.trigger_context.ts)
+        # the fire is recorded when it is reserved, in process()
+        pass
 
     def eval_watch(self, watch: str, source: str) -> Tuple[WatchResult, Dict[str, Variable], str]:
         """
@@ -107,6 +107,9 @@ class ActionContext(abc.ABC):
 
     def process(self):
         """Process the action."""
+        if self.location_action.try_fire(self.trigger_context.ts) is False:
+            # another thread took the last permitted fire between our check and now
+            return None
         try:
             return self._process_action()
         finally:
